@@ -3,6 +3,7 @@ package rules
 import (
 	"fmt"
 	"go/ast"
+	"go/token"
 	"go/types"
 
 	"sopverif/eng"
@@ -134,13 +135,45 @@ func errHandled(g *eng.Graph, call *ast.CallExpr, failOK func(*eng.GNode) bool) 
 		}
 		return false, false
 	}
+	// a boolean computed from the nil test of the error (`ok := err == nil`, a helper that reports success as a flag)
+	// is the test by proxy: the flag-sensitive second pass follows what is done with it
+	proxyTest := func(n *eng.GNode) bool {
+		var rhs []ast.Expr
+		switch st := n.Node.(type) {
+		case *ast.AssignStmt:
+			rhs = st.Rhs
+		case *ast.DeclStmt:
+			if gd, ok := st.Decl.(*ast.GenDecl); ok {
+				for _, sp := range gd.Specs {
+					if vs, ok := sp.(*ast.ValueSpec); ok {
+						rhs = append(rhs, vs.Values...)
+					}
+				}
+			}
+		}
+		found := false
+		for _, r := range rhs {
+			ast.Inspect(r, func(x ast.Node) bool {
+				if _, isLit := x.(*ast.FuncLit); isLit {
+					return false
+				}
+				if b, ok := x.(*ast.BinaryExpr); ok && (b.Op == token.EQL || b.Op == token.NEQ) {
+					if (eng.SelObj(info, b.X) == errVar && eng.IsNil(info, b.Y)) || (eng.SelObj(info, b.Y) == errVar && eng.IsNil(info, b.X)) {
+						found = true
+					}
+				}
+				return !found
+			})
+		}
+		return found
+	}
 	isTestNode := func(n *eng.GNode) bool {
 		for _, e := range n.Succ {
 			if _, ok := isTestEdge(e); ok {
 				return true
 			}
 		}
-		return false
+		return n.Node != nil && proxyTest(n)
 	}
 	overwrites := func(n *eng.GNode) bool {
 		if n == node {
